@@ -404,6 +404,7 @@ func c07Exec(nic c07NIC, cs c07Case) (failure string) {
 		x.n = dns.VerifNew(x.s)
 		vsched.WaitIdle()
 		x.con.Take()
+		env.DirtyPool()
 		err := cs.invoke(x)
 		vsched.WaitIdle()
 		var infos []refnet.SentInfo
